@@ -29,7 +29,7 @@ def expected_windows(n, w, s):
 class C05(Check):
     ID = 'C05'
     LEVEL = 'exploration'
-    BUDGET = {'quick': 30, 'thorough': 240}
+    BUDGET = {'quick': 75, 'thorough': 240}
     EXHAUSTIVE = {'quick': False, 'thorough': False}
     RULE = ('case = (window w, stride s, stream, parent context). Box: EVERY (w, s, n) with w,s in 1..8 and n in 0..min(4*w*s+3, 80) (quick) / w,s in 1..11, n <= 140 (thorough) at top level '
             '(wraps the ceil(w/s) slot ring several times); then random w,s <= 12 (every 75th case windows of 257-1000 items) under group_by with interleaved keys (int / tuple / string keys), nested in roll '
